@@ -262,6 +262,9 @@ impl ServerInner {
                     let _ = join_all(workers_stop).await;
                 }
 
+                #[cfg(actix_net_verif)]
+                crate::verif::before_accept_join();
+
                 // wait for accept thread stop
                 self.accept_handle
                     .take()
